@@ -476,7 +476,18 @@ pub fn run(ctx: &mut Ctx, prop: &str) -> Report {
 			));
 			gens.push(p);
 		}
-		s.rep.exhaustive.push("all 256 path lengths; each of the 9 key usages alone and all together; IPv4/IPv6 subtrees at 5 boundary prefix pairs, permitted and excluded".into());
+		// alternative names whose *text* looks like something else: a dNSName, an rfc822Name, a URI
+		// that reads as an IP address, as a number, as an address with a port — each comes back in the
+		// form it was given in
+		for t in ["10.1.2.3", "fe80::1", "::", "::ffff:10.1.2.3", "1.2.3", "256.1.1.1", "0x7f.1", "2130706433", "10.1.2.3.", "[fe80::1]", "10.1.2.3:443", "localhost", "a@10.1.2.3"] {
+			for form in 0..3 {
+				let mut p = PCert::default_like();
+				p.ca = Ca::Ca(None);
+				p.san = vec![match form { 0 => San::Dns(t.into()), 1 => San::Rfc822(t.into()), _ => San::Uri(t.into()) }, San::Ip("192.0.2.7".parse().unwrap())];
+				gens.push(p);
+			}
+		}
+		s.rep.exhaustive.push("all 256 path lengths; each of the 9 key usages alone and all together; IPv4/IPv6 subtrees at 5 boundary prefix pairs, permitted and excluded; 13 address-like texts as dNSName / rfc822Name / URI next to a real iPAddress".into());
 	}
 	let algs: Vec<String> = keys::build_algs().iter().map(|a| alg_name(a).to_string()).collect();
 	let mut gens_seen = 0usize;
